@@ -109,6 +109,7 @@ fn rle(xs: &[String]) -> Value {
 
 struct Ctx {
     alg: String,
+    key: Vec<u8>,
     oracle: Vec<Value>,
     feat: Map<String, Value>,
 }
@@ -248,10 +249,38 @@ fn op_flips(cx: &mut Ctx, key: &LocalKey, msg: &[u8], nonce: &[u8], aad: &[u8]) 
     for i in 0..8 * nonce.len() { b.push(dec_code(cx, "dec:flip", key, &ct, &tag, &flip_bit(nonce, i), aad, msg)); }
     let mut c = vec![];
     for i in 0..8 * aad.len() { c.push(dec_code(cx, "dec:flip", key, &ct, &tag, nonce, &flip_bit(aad, i), msg)); }
+    // the same ciphertext under every key that differs in one bit
+    let mut d = vec![];
+    let kb = cx.key.clone();
+    if let Some(ka) = alg_of(&alg) {
+        for i in 0..8 * kb.len() {
+            let fk = flip_bit(&kb, i);
+            d.push(match guarded(cx, "from_secret_bytes", || LocalKey::from_secret_bytes(ka, &fk)) {
+                Ok(Ok(k2)) => dec_code(cx, "dec:flip", &k2, &ct, &tag, nonce, aad, msg),
+                Ok(Err(e)) => ecode(&e),
+                Err(()) => "panic".into(),
+            });
+        }
+    }
     // ---- oracle: every tampering is rejected, and all same-length forgeries are rejected with the same error
     for (field, codes) in [("ct‖tag", &a), ("nonce", &b), ("aad", &c)] {
         if let Some(pos) = codes.iter().position(|x| x.starts_with("ok")) {
             cx.fail(format!("c12:tamper:{}:single-bit flip of {} accepted", alg, field), json!({"bit": pos, "msg_len": msg.len()}));
+        }
+    }
+    // key: for the composite CBC-HMAC key (RFC 7518 5.2.2: MAC_KEY ‖ ENC_KEY) the tag is computed under MAC_KEY only, so a
+    // changed ENC_KEY is by specification not detected by the tag (the outcome is then a padding error or, with
+    // probability about 1/256 per flip, a different plaintext) — there only the original plaintext coming back is a failure.
+    let mac_half_bits = if alg == "a128cbchs256" { 128 } else if alg == "a256cbchs512" { 256 } else { usize::MAX };
+    for (pos, x) in d.iter().enumerate() {
+        let bad = if pos < mac_half_bits { x.starts_with("ok") } else { x == "ok:same" };
+        if bad {
+            if is_kw(&alg) && msg.is_empty() {
+                cx.fail(format!("c12:kw-empty:{}:the wrapping of the empty input (A6A6A6A6A6A6A6A6) unwraps under every key; RFC 3394 requires n >= 2", alg), json!({"bit": pos}));
+            } else {
+                cx.fail(format!("c12:tamper:{}:single-bit flip of key accepted", alg), json!({"bit": pos, "msg_len": msg.len(), "got": x}));
+            }
+            break;
         }
     }
     let distinct: BTreeSet<&String> = a.iter().chain(b.iter()).chain(c.iter()).filter(|x| x.starts_with("E:")).collect();
@@ -260,7 +289,7 @@ fn op_flips(cx: &mut Ctx, key: &LocalKey, msg: &[u8], nonce: &[u8], aad: &[u8]) 
         cx.fail(format!("c12:uniform:{}:same-length forgeries distinguishable:{}", alg, list.join("|")), json!({"msg_len": msg.len(), "errors": list}));
     }
     cx.count("flips");
-    json!({"base": base, "ct_tag": rle(&a), "nonce": rle(&b), "aad": rle(&c)})
+    json!({"base": base, "ct_tag": rle(&a), "nonce": rle(&b), "aad": rle(&c), "key": rle(&d)})
 }
 
 fn op_resize(cx: &mut Ctx, key: &LocalKey, msg: &[u8], nonce: &[u8], aad: &[u8], ext: &[u8]) -> Value {
@@ -466,7 +495,7 @@ fn run_kats(cx: &mut Ctx) {
 pub fn exec(case: &Value, _tag: &str) -> Value {
     let kind = case["kind"].as_str().unwrap_or("");
     let alg = case["alg"].as_str().unwrap_or("").to_string();
-    let mut cx = Ctx { alg: alg.clone(), oracle: vec![], feat: Map::new() };
+    let mut cx = Ctx { alg: alg.clone(), key: hx(case, "key"), oracle: vec![], feat: Map::new() };
     let out = match kind {
         "c12:selftest" => {
             run_kats(&mut cx);
@@ -542,7 +571,7 @@ fn case(id: String, alg: &str, key: &[u8], ops: Vec<Value>) -> Value {
 /// generated cases for this property (each a JSON object with "kind": "c12…")
 pub fn gen(r: &mut Rng, thorough: bool, count: Option<usize>) -> Vec<Value> {
     let mut out = vec![json!({"kind": "c12:selftest", "id": "selftest"})];
-    let scale = if thorough { 12 } else { 1 };
+    let scale = if thorough { 30 } else { 1 };
     // every key length 0..80 for every algorithm
     for alg in ALGS.iter().chain(["ed25519"].iter()) {
         out.push(json!({"kind": "c12:keylens", "id": format!("keylens-{}", alg), "alg": alg, "max": 80, "fill": r.below(256)}));
